@@ -663,7 +663,7 @@ def run():
     from psd_tools.psd.patterns import Patterns as _Patterns
 
     pcases = []
-    plit = lambda l: F.coq_list(F.coq_pattern, l)
+    plit = lambda l: F.coq_list(F.coq_pattern, l) if l else "(@nil pattern)"
 
     def one_patterns(l, origin):
         out, info = F.run_patterns(l, exc_code)
